@@ -1,10 +1,11 @@
 #!/bin/bash
 # ./sweep.sh <tier> <seed...> — runs every implemented check at the given seeds, one after another,
 # and prints one line per run (exit status + summary). Used for silence sweeps on the unchanged tree.
+# IDS="C01 C03" restricts the sweep to those checks.
 cd "$(dirname "$0")"
 tier=$1; shift
 for seed in "$@"; do
-  for id in $(cat implemented.txt); do
+  for id in ${IDS:-$(cat implemented.txt)}; do
     out=$(VERIF_SEED=$seed ./check $id $tier 2>&1); rc=$?
     echo "seed=$seed $id rc=$rc $(echo "$out" | grep -E '^summary' | cut -c1-200)"
     echo "$out" | grep -E '^(VIOLATION|violation-detail|INCONCLUSIVE|BUILD-FAILED)' | cut -c1-300 | head -5
